@@ -14,6 +14,7 @@ import (
 	"sync"
 	"testing"
 	"unicode/utf8"
+	"verif/internal/after"
 
 	"github.com/titpetric/vuego"
 	"pgregory.net/rapid"
@@ -407,10 +408,25 @@ func render(p program, v string) (string, error) { return renderC(p, "", v) }
 func renderC(p program, carrier, v string) (string, error) {
 	var buf bytes.Buffer
 	var err error
+	// in a part of the cases failed and aborted calls run first: in the process (pools) and on
+	// the template object that is rendered next (its stack, remembered error, buffers); nothing
+	// of them may show in the render under test
+	names := []string{"v", "secret", "yes", "items", "rows", "w2", "p", "q", "i", "n"}
+	dirty := (len(v)*7+len(p.tpl)+len(carrier))%16 == 0
+	fail := func(t vuego.Template) vuego.Template {
+		if dirty {
+			after.Poison(names)
+			after.FailOn(t, names)
+		}
+		return t
+	}
 	if p.files != nil {
-		err = vuego.NewFS(memfs.FromMap(p.files), vuego.WithFuncs(funcs)).Load("page.vuego").Fill(dataC(carrier, v)).Render(context.Background(), &buf)
+		err = fail(vuego.NewFS(memfs.FromMap(p.files), vuego.WithFuncs(funcs)).Load("page.vuego").Fill(dataC(carrier, v))).Render(context.Background(), &buf)
 	} else {
-		err = vuego.New(vuego.WithFuncs(funcs)).Fill(dataC(carrier, v)).RenderString(context.Background(), &buf, p.tpl)
+		err = fail(vuego.New(vuego.WithFuncs(funcs)).Fill(dataC(carrier, v))).RenderString(context.Background(), &buf, p.tpl)
+	}
+	if m := after.Leaked(buf.String()); m != "" && err == nil && !strings.Contains(v, "STALE") {
+		return buf.String(), fmt.Errorf("the output shows %q: text or a value of an earlier FAILED render (or of a failed call on the same template object)\noutput: %s", m, buf.String())
 	}
 	return buf.String(), err
 }
